@@ -231,7 +231,15 @@ def runHist (c : Cfg) (j : Json) : String :=
       let A := cfgAlign c d
       lines ++ ["hyp2 CfgOK=" ++ b01 (cfgOKb A c d) ++ " HdrFits=" ++ b01 (hdrFitsb c d L s0.p.openArgs) ++
         " SameSize=" ++ b01 (s0.p.setBufs.all (fun x => x.2 == L)) ++ " Small=" ++ b01 (decide (8 * L + A ≤ 2 ^ 32)) ++
-        " halted=" ++ b01 s.halted ++ " A=" ++ toString A] else lines
+        " halted=" ++ b01 s.halted ++ " A=" ++ toString A ++
+        -- the hypotheses of `no_store_outside_the_buffer_any_sizes`: every buffer holds header + context and is below the
+        -- no-wrap bound, no toggle is scripted, the history never disables tracing and starts by opening a packet
+        (let sizes := L :: s0.p.setBufs.map (·.2)
+         let lmax := sizes.foldl max 0
+         " GoodBufs=" ++ b01 (sizes.all (fun b => hdrFitsb c d b s0.p.openArgs) && decide (8 * lmax + A ≤ 2 ^ 32)) ++
+         " NoToggle=" ++ b01 s0.p.toggles.isEmpty ++
+         " NeverDisabled=" ++ b01 (ops.all (fun o => match o with | .enable false => false | _ => true)) ++
+         " StartsOpen=" ++ b01 (match ops with | .open_ :: _ => true | _ => false))] else lines
     (Json.arr (lines.map Json.str).toArray).compress
 
 /-! ### layout / API ops -/
